@@ -306,12 +306,12 @@ PROPS = {
                    "serde human-readable (JSON hex string: core::fmt), ark-ff (not in the harness crate's feature set). Known finding: SCALE fixed encoding of Uint<64> differs from u64's (length-prefixed): changing it changes the wire format",
         technique="Kani contract harnesses on the compiled crate with the codec crates enabled (feature codecs), complete per width",
         units=[],
-        kani=dict(features="codecs", quick=hs("c16", None, r"_w(128|129|192)$|rlp_stream|serde_human_2p64") + hs("c17", r"scale_compact_m[012]_.*_w65|scale_compact_big_w65|c17_spec_"), thorough=hs("c16") + hs("c17", r"scale_compact|c17_spec_"), timeout_quick=3000, timeout_thorough=7200,
+        kani=dict(sweep_only=['c16::native::c16n_bigint_to_w64', 'c16::native::c16n_bigint_to_w65', 'c16::native::c16n_bigint_to_w128', 'c16::native::c16n_bigint_to_w192', 'c16::native::c16n_bigint_to_w256', 'c16::native::c16n_bigint_from_w8', 'c16::native::c16n_bigint_from_w64', 'c16::native::c16n_bigint_from_w65', 'c16::native::c16n_bigint_from_w128', 'c16::native::c16n_der_body_w8', 'c16::native::c16n_der_body_w64', 'c16::native::c16n_der_body_w65', 'c16::native::c16n_der_body_w128'], features="codecs", quick=hs("c16", None, r"_w(128|129|192)$|rlp_stream|serde_human_2p64") + hs("c17", r"scale_compact_m[012]_.*_w65|scale_compact_big_w65|c17_spec_"), thorough=hs("c16") + hs("c17", r"scale_compact|c17_spec_"), timeout_quick=3000, timeout_thorough=7200,
                   bounds="widths 7,8,16,60,64,65 (quick) + 128,129,192 (thorough); all canonical values"),
         known_findings={"scale_fixed_equals_primitive": ["c16::kf_c16_scale_fixed_equals_primitive_w64"]},
         explanation="harness-level contracts; reference encodings written from the format definitions",
         trusted=COMMON_TRUST + ["Kani stubs: alloc::fmt::format (error text), ptr_rotate / BytesMut::reserve_inner proved unreachable in c16_rlp_stream_w8"],
-        not_decided=["rlp crate encoder above 8 bits", "DER to_der / from_der end to end", "num-bigint", "postgres beyond binary NUMERIC on four concrete values (c16_pg_numeric_*, BOUNDED)", "serde human-readable beyond the 8 concrete value/width pairs of c16_serde_human_* (BOUNDED stand-in: text handed to serialize_str and its visit_str round trip)", "ark-ff"],
+        not_decided=["rlp crate encoder above 8 bits", "DER to_der / from_der end to end (encode_to_slice: native sweep only, bounded)", "num-bigint (From<&Uint> for BigUint, TryFrom<&BigUint>: native sweep only, bounded)", "postgres beyond binary NUMERIC on four concrete values (c16_pg_numeric_*, BOUNDED)", "serde human-readable beyond the 8 concrete value/width pairs of c16_serde_human_* (BOUNDED stand-in: text handed to serialize_str and its visit_str round trip)", "ark-ff"],
     ),
     "C17": dict(
         level="other",
